@@ -13,3 +13,33 @@ package xreq
 //@   immutable: closeQ
 //@   elem_invariant recvQ: !shared(elem)
 //@
+// ---- generated option contracts (tools/gen_option_contracts.py) ----
+//@ func (*socket).SetOption
+//@   ensures name != protocol.OptionRecvDeadline && name != protocol.OptionSendDeadline && name != protocol.OptionBestEffort && name != protocol.OptionWriteQLen && name != protocol.OptionReadQLen ==> result == protocol.ErrBadOption
+//@   ensures name == protocol.OptionRecvDeadline ==> (isnil(result) <==> is_duration(value))
+//@   ensures name == protocol.OptionRecvDeadline && !isnil(result) ==> result == protocol.ErrBadValue
+//@   ensures name == protocol.OptionRecvDeadline && isnil(result) ==> s.recvExpire == int_of(value)
+//@   ensures name == protocol.OptionSendDeadline ==> (isnil(result) <==> is_duration(value))
+//@   ensures name == protocol.OptionSendDeadline && !isnil(result) ==> result == protocol.ErrBadValue
+//@   ensures name == protocol.OptionSendDeadline && isnil(result) ==> s.sendExpire == int_of(value)
+//@   ensures name == protocol.OptionBestEffort ==> (isnil(result) <==> is_bool(value))
+//@   ensures name == protocol.OptionBestEffort && !isnil(result) ==> result == protocol.ErrBadValue
+//@   ensures name == protocol.OptionBestEffort && isnil(result) ==> s.bestEffort == bool_of(value)
+//@   ensures name == protocol.OptionWriteQLen ==> (isnil(result) <==> is_int(value) && 0 <= int_of(value))
+//@   ensures name == protocol.OptionWriteQLen && !isnil(result) ==> result == protocol.ErrBadValue
+//@   ensures name == protocol.OptionWriteQLen && isnil(result) ==> s.sendQLen == int_of(value)
+//@   ensures name == protocol.OptionReadQLen ==> (isnil(result) <==> is_int(value) && 0 <= int_of(value))
+//@   ensures name == protocol.OptionReadQLen && !isnil(result) ==> result == protocol.ErrBadValue
+//@   ensures name == protocol.OptionReadQLen && isnil(result) ==> s.recvQLen == int_of(value)
+//@   ensures !isnil(result) ==> unchanged(s.bestEffort, s.recvExpire, s.recvQLen, s.sendExpire, s.sendQLen)
+//@
+//@ func (*socket).GetOption
+//@   ensures option != protocol.OptionRecvDeadline && option != protocol.OptionSendDeadline && option != protocol.OptionBestEffort && option != protocol.OptionWriteQLen && option != protocol.OptionReadQLen && option != protocol.OptionRaw ==> result1 == protocol.ErrBadOption && isnil(result0)
+//@   ensures option == protocol.OptionRecvDeadline ==> isnil(result1) && result0 == iface(s.recvExpire)
+//@   ensures option == protocol.OptionSendDeadline ==> isnil(result1) && result0 == iface(s.sendExpire)
+//@   ensures option == protocol.OptionBestEffort ==> isnil(result1) && result0 == iface(s.bestEffort)
+//@   ensures option == protocol.OptionWriteQLen ==> isnil(result1) && result0 == iface(s.sendQLen)
+//@   ensures option == protocol.OptionReadQLen ==> isnil(result1) && result0 == iface(s.recvQLen)
+//@   ensures option == protocol.OptionRaw ==> isnil(result1) && result0 == iface(true)
+//@
+// ---- end generated option contracts ----
